@@ -64,7 +64,7 @@ def ext_opaque_method(eng, args, kwargs, st, node):
     return [(SVal(st.fresh.const('opaque_result', Val)), st)]
 
 
-for _m in ('values', 'items', 'extend', 'append'):
+for _m in ('values', 'items', 'extend', 'append', 'iteritems', 'iterkeys'):
     EXTERNALS['opaque.' + _m] = ext_opaque_method
 
 
